@@ -43,9 +43,9 @@ def _eval(unit, fn, env, types):
                     return len(text(vals[0]))
                 if name == "strchr":
                     if isinstance(vals[0], str):
-                        return 1 if vals[1] and chr(vals[1]) in vals[0] else 0
+                        return 1 if vals[1] and chr(vals[1] & 0xff) in vals[0] else 0
                     t_ = text(vals[0])
-                    i_ = t_.find(chr(vals[1])) if vals[1] else len(t_)
+                    i_ = t_.find(chr(vals[1] & 0xff)) if vals[1] else len(t_)
                     return vals[0] + i_ if i_ >= 0 else 0
                 t_, set_ = text(vals[0]), text(vals[1])
                 i_ = 0
